@@ -203,7 +203,7 @@ Proof.
     clearbody w1. clear HI.
     set (s := cs gst w1). set (k := g_next s).
     destruct (if k =? length (g_ent s) then _ else _) as [ent' nx'].
-    destruct ((k <? length (g_states s)) && g_clean s) eqn:Eg; [|apply Inv_flags, Inv_emit, HI1].
+    destruct ((k <? length (g_states s)) && g_clean s) eqn:Eg; [|apply Inv_flags, Inv_not_pending; [apply K_ret, K_emit, HI1|reflexivity]].
     apply andb_true_iff in Eg as [Ek Ecl]. apply Nat.ltb_lt in Ek.
     assert (Hcl : g_last s = None /\ g_queue s = []).
     { unfold g_clean in Ecl. destruct (g_last s); [discriminate|]. destruct (g_queue s); [auto|discriminate]. }
